@@ -17,7 +17,7 @@ import (
 
 // C07 — a diff reports only real differences: no no-op, no redundant hunk.
 
-var c07OptSets = []string{"list", "set", "mset", "setkeys:id", "merge"}
+var c07OptSets = []string{"list", "list", "set", "mset", "setkeys:id", "merge", "set+merge", "mset+merge"}
 
 // locate walks a hunk path prefix (everything but a trailing index / {} /
 // []) in doc. present=false means a key on the way is absent.
@@ -139,6 +139,15 @@ func checkC07(c PairCase, r *rec.Rec) error {
 				if fmt.Sprint(rc) == fmt.Sprint(ac) {
 					return rec.Violated("hunk %d removes exactly what it adds: %s\ndiff:\n%s", k, h, text)
 				}
+				if last.Kind == ref.Index && rd == val.List {
+					// the removed and the added run lie between two common
+					// elements of an optimal alignment, so they have nothing
+					// in common themselves: a value on both sides is an
+					// unchanged element that the hunk restates
+					if n := ref.LCSLen(rc, ac); n > 0 {
+						return rec.Violated("hunk %d removes and re-adds %d unchanged element(s) (equal values, in order, on both sides): %s", k, n, truncateText(h.String(), 600))
+					}
+				}
 			}
 		} else {
 			old, present, lerr := locate(cur, h.Path)
@@ -184,6 +193,13 @@ func checkC07(c PairCase, r *rec.Rec) error {
 		r.Sample(c)
 	}
 	return nil
+}
+
+func truncateText(s string, n int) string {
+	if len(s) > n {
+		return s[:n] + "..."
+	}
+	return s
 }
 
 func addedIsInB(bv val.V, h ref.Hunk, rd val.Reading) error {
@@ -281,6 +297,18 @@ func genC07(t *rapid.T) PairCase {
 			return a, gen.Doc(t, p)
 		}
 		return a, gen.EditN(t, a, p, 2, 6)
+	}
+	if opts == "list" && gen.Chance(t, "longDistant", 3) {
+		// a long array with two edits far apart
+		n := gen.Int(t, "n", 520, 700)
+		a := make([]val.V, n)
+		for i := range a {
+			a[i] = float64(i)
+		}
+		b := append([]val.V{}, a...)
+		b[gen.Int(t, "e1", 2, 20)] = "x"
+		b[n-gen.Int(t, "e2", 2, 20)] = "y"
+		return PairCase{A: val.JSON(a), B: val.JSON(b), Opts: opts}
 	}
 	if gen.Chance(t, "composite", 45) {
 		// several independently edited parts under one object: several hunks
